@@ -2,9 +2,9 @@
    Only theorem statements closed by `exact`, each followed by Print Assumptions.
    opsem (the meaning of the scalar operations) is universally quantified: any function of the operation
    (name, attributes) and the operand values; integer and float operations are covered uniformly. *)
-From Snax Require Import Base.Prelude Model.C20Phs Proofs.C20PhsProofs Proofs.C20DecodeProofs
+From Snax Require Import Base.Prelude Model.C20Phs Model.C20Order Proofs.C20PhsProofs Proofs.C20DecodeProofs
   Proofs.C20SearchProofs Proofs.C20AppendProofs Proofs.C20HistoryProofs Proofs.C20WfProofs
-  Proofs.C20HistoryFullProofs Proofs.C20EncodeProofs.
+  Proofs.C20HistoryFullProofs Proofs.C20EncodeProofs Proofs.C20EncodeSemProofs Proofs.C20EndToEndProofs.
 
 (* valid_mapping_sem: if valid_mapping accepts the mux assignment mu for the kernel graph g against the
    abstract graph G, then G — with its mux switches set as mu says and its choose switches selecting g's
@@ -96,6 +96,32 @@ Theorem C20_encode_ok :
 Proof. exact encode_ok. Qed.
 Print Assumptions C20_encode_ok.
 
+(* encode_sem: the graph convert_generic_body_to_phs builds for an SSA body computes, on the used block
+   arguments (the unused ones are erased), exactly what the body yields *)
+Theorem C20_encode_sem :
+  forall opsem b g sw ins v,
+    body_ok b = true -> encode b = Some g -> (bnargs b <= length ins)%nat ->
+    eval_body opsem b ins = Some v -> eval_pe opsem g sw (used_inputs b ins) = Some v.
+Proof. exact encode_sem. Qed.
+Print Assumptions C20_encode_sem.
+
+(* The property, from kernel BODIES to the merged PE: for every list of SSA bodies with attribute-free
+   operations whose graphs have a common number of data arguments, merged in the given (any) order: every
+   body's graph decodes against the merged PE, the number of switch values equals get_true_switches, and under
+   them the merged PE yields, on every data input, exactly the value the body yields. *)
+Theorem C20_bodies_history_correct :
+  forall opsem bs gs G,
+    Forall2 (fun b g => encode b = Some g) bs gs ->
+    (forall b, In b bs -> body_ok b = true /\ plain_body b = true) ->
+    (forall g, In g gs -> pdata g = pdata G) ->
+    merge_all gs = Some G ->
+    forall b g, In (b, g) (combine bs gs) ->
+      exists sw, decode G g = Some sw /\ true_switches G = Some (length sw) /\
+        forall ins v, (bnargs b <= length ins)%nat -> eval_body opsem b ins = Some v ->
+                      eval_pe opsem G sw (used_inputs b ins) = Some v.
+Proof. exact bodies_history_correct. Qed.
+Print Assumptions C20_bodies_history_correct.
+
 (* non-vacuity: two kernels with different routing and operations; the merged PE has a mux and a
    two-alternative choose op, decode succeeds with a non-trivial switch list and every hypothesis holds *)
 Definition ex_f32 : sig := ([132;132],[132]).
@@ -129,3 +155,41 @@ Proof.
   eexists _, _, _, _. repeat (split; [vm_compute; reflexivity|]). vm_compute. reflexivity.
 Qed.
 Print Assumptions C20_history_nonvacuous.
+
+(* Known finding C20-F1 (class not_distinct_by_type = ops_agree false), confirmed on the real code: without
+   the attribute-free hypothesis history_correct is FALSE.  Two kernels that differ in the predicate of
+   arith.cmpi only: the second one decodes (to an empty switch list) and the merged PE computes the first
+   kernel's function. *)
+Theorem C20_history_correct_attr_refuted :
+  exists opsem g1 g2 G sw ins,
+    encode w_b1 = Some g1 /\ encode w_b2 = Some g2 /\ merge_all [g1; g2] = Some G /\
+    pe_wf G = true /\ ops_agree g2 G = false /\ decode G g2 = Some sw /\
+    eval_pe opsem G sw ins <> eval_pe opsem g2 [] ins.
+Proof.
+  exists w_opsem. eexists _, _, _, _, [3; 5].
+  repeat (split; [vm_compute; reflexivity|]). vm_compute. discriminate.
+Qed.
+Print Assumptions C20_history_correct_attr_refuted.
+
+(* Known finding C20-F2 (class order_inversion = block_ordered false), confirmed on the real code: merging two
+   kernels whose choose ids of different type signatures occur in different orders yields a block in which a
+   mux uses a choose result defined later; both kernels still decode and (history_correct) the selected paths
+   compute the right functions. *)
+Theorem C20_block_order_refuted :
+  exists g3 g4 G,
+    encode w_b3 = Some g3 /\ encode w_b4 = Some g4 /\ merge_all [g3; g4] = Some G /\
+    block_ordered g3 = true /\ block_ordered g4 = true /\ pe_wf G = true /\ block_ordered G = false /\
+    decode G g3 = Some [0; 0; 0; 0] /\ decode G g4 = Some [1; 1; 1; 1].
+Proof.
+  eexists _, _, _. repeat (split; [vm_compute; reflexivity|]). vm_compute. reflexivity.
+Qed.
+Print Assumptions C20_block_order_refuted.
+
+(* non-vacuity of the body-level statement: the three example bodies satisfy its hypotheses and evaluate *)
+Example C20_bodies_nonvacuous :
+  forallb (fun b => body_ok b && plain_body b) [ex_b1; ex_b2; ex_b3] = true /\
+  (forall opsem, eval_body opsem ex_b3 [5; 7; 0] =
+                 Some [opsem (mkOp 22 0) [opsem (mkOp 20 0) [opsem (mkOp 21 0) [5; 5]; 7]; opsem (mkOp 21 0) [5; 5]]]) /\
+  used_inputs ex_b3 [5; 7; 0] = [5; 7].
+Proof. split; [vm_compute; reflexivity|]. split; [intros opsem; vm_compute; reflexivity|vm_compute; reflexivity]. Qed.
+Print Assumptions C20_bodies_nonvacuous.
